@@ -11,7 +11,7 @@ def AutosOK (autos : List (Str × Str)) : Prop :=
 
 /-- header fixed (WriteHeader happened), nothing sent yet -/
 def PB (S0 : HMap) (st : Nat) (s : St) : Prop :=
-  s.wroteHeader = true ∧ s.sentHeader = false ∧ s.out = [] ∧ s.snap = S0 ∧ s.status = st
+  s.wroteHeader = true ∧ s.sentHeader = false ∧ s.out = [] ∧ s.snap = S0 ∧ s.status = st ∧ s.bwErr = false
 
 /-- the response HEADERS frame has been written and is the specified one -/
 def PC (S0 : HMap) (st : Nat) (s : St) : Prop :=
@@ -91,7 +91,7 @@ theorem wc_PC (env : Env) (S0 : HMap) (st : Nat) (s : St) (p : List Nat) (h : PC
 
 theorem wc_PB (env : Env) (S0 : HMap) (st : Nat) (s : St) (p : List Nat) (h : PB S0 st s) :
     PC S0 st (writeChunk env s p) := by
-  obtain ⟨hw, hs, ho, hsn, hst⟩ := h
+  obtain ⟨hw, hs, ho, hsn, hst, _⟩ := h
   unfold writeChunk
   rw [wc_pre_id s hw, if_neg (by simp [hs])]
   obtain ⟨es, autos, ha, e1, e2⟩ := headerPart_spec env s p hs
@@ -126,6 +126,17 @@ theorem pbc_bwWrite (env : Env) (S0 : HMap) (st : Nat) (s : St) (p : List Nat) (
       · exact Or.inr h1
       · exact Or.inr (wc_PC env S0 st _ _ h1)
 
+/-- a Write that has to flush a non-empty buffer sends the HEADERS -/
+theorem pc_bwWrite_flush (env : Env) (S0 : HMap) (st : Nat) (s : St) (p : List Nat) (h : PBC S0 st s)
+    (hne : s.buf.isEmpty = false) (hgt : p.length > bufSize - s.buf.length) : PC S0 st (bwWrite env s p) := by
+  unfold bwWrite
+  rw [if_neg (by omega), if_neg (by simp [hne])]
+  simp only []
+  have h1 := wc_PBC env S0 st { s with buf := [] } (s.buf ++ p.take (bufSize - s.buf.length)) h
+  split
+  · exact h1
+  · exact wc_PC env S0 st _ _ h1
+
 theorem pbc_rwWrite (env : Env) (S0 : HMap) (st : Nat) (s : St) (p : List Nat) (h : PBC S0 st s) :
     PBC S0 st (rwWrite env s p) := by
   unfold rwWrite
@@ -140,13 +151,37 @@ theorem pbc_rwWrite (env : Env) (S0 : HMap) (st : Nat) (s : St) (p : List Nat) (
   · split
     · exact g1
     · have g2 : PBC S0 st { s1 with wroteBytes := s1.wroteBytes + p.length } := g1
-      exact pbc_bwWrite env S0 st _ p g2
+      have g3 := pbc_bwWrite env S0 st _ p g2
+      split
+      · unfold rwWriteHead
+        split
+        · exact g2
+        · split
+          · rename_i hshort
+            unfold bwShort at hshort
+            simp only [Bool.and_eq_true, Bool.not_eq_true', decide_eq_true_eq] at hshort
+            have hpc := pc_bwWrite_flush env S0 st _ p g2 hshort.1.2 hshort.2
+            exact Or.inr hpc
+          · exact g3
+      · exact g3
 
 theorem pbc_rwFlush (env : Env) (S0 : HMap) (st : Nat) (s : St) (h : PBC S0 st s) : PC S0 st (rwFlush env s) := by
-  unfold rwFlush
+  unfold rwFlush rwFlushHead rwFlushGet
   split
-  · exact wc_PBC env S0 st { s with buf := [] } s.buf h
-  · exact wc_PBC env S0 st s [] h
+  · split
+    · split
+      · rename_i hbe
+        -- before the HEADERS are sent the bufio.Writer has no error
+        rcases h with h | h
+        · have := h.2.2.2.2.2; rw [hbe] at this; cases this
+        · exact h
+      · split
+        · exact wc_PBC env S0 st { s with buf := [] } s.buf h
+        · exact wc_PBC env S0 st { s with buf := [] } s.buf h
+    · exact wc_PBC env S0 st s [] h
+  · split
+    · exact wc_PBC env S0 st { s with buf := [] } s.buf h
+    · exact wc_PBC env S0 st s [] h
 
 theorem pbc_step (env : Env) (S0 : HMap) (st : Nat) (s : St) (a : Act) (h : PBC S0 st s) : PBC S0 st (step env s a) := by
   cases a with
@@ -169,13 +204,13 @@ theorem pbc_finish (env : Env) (S0 : HMap) (st : Nat) (acts : List Act) (s : St)
 
 /-- before WriteHeader: only header additions so far -/
 def PA (m : HMap) (s : St) : Prop :=
-  s.wroteHeader = false ∧ s.sentHeader = false ∧ s.out = [] ∧ s.hh = m ∧ s.snap = []
+  s.wroteHeader = false ∧ s.sentHeader = false ∧ s.out = [] ∧ s.hh = m ∧ s.snap = [] ∧ s.bwErr = false
 
 theorem pa_writeHeader (m : HMap) (s : St) (c : Nat) (h : PA m s) : PB (snapAt m) c (writeHeader s c) := by
-  obtain ⟨h1, h2, h3, h4, h5⟩ := h
+  obtain ⟨h1, h2, h3, h4, h5, h6⟩ := h
   unfold writeHeader snapAt
   simp only [h1, Bool.false_eq_true, if_false]
-  refine ⟨rfl, h2, h3, ?_, rfl⟩
+  refine ⟨rfl, h2, h3, ?_, rfl, h6⟩
   simp only []
   rw [h4, h5]
 
@@ -202,10 +237,16 @@ theorem rwWrite_PA (env : Env) (m : HMap) (s : St) (p : List Nat) (h : PA m s) :
   exact pbc_rwWrite env _ _ _ p (Or.inl (pa_writeHeader m s 200 h))
 
 theorem rwFlush_PA (env : Env) (m : HMap) (s : St) (h : PA m s) : PC (snapAt m) 200 (rwFlush env s) := by
-  unfold rwFlush
+  have hbe : s.bwErr = false := h.2.2.2.2.2
+  unfold rwFlush rwFlushHead rwFlushGet
   split
-  · exact wc_PA env m _ _ ⟨h.1, h.2.1, h.2.2.1, h.2.2.2.1, h.2.2.2.2⟩
-  · exact wc_PA env m _ _ h
+  · split
+    · rw [if_neg (by simp [hbe]), if_pos (by simp [h.2.1])]
+      exact wc_PA env m _ _ ⟨h.1, h.2.1, h.2.2.1, h.2.2.2.1, h.2.2.2.2⟩
+    · exact wc_PA env m _ _ h
+  · split
+    · exact wc_PA env m _ _ ⟨h.1, h.2.1, h.2.2.1, h.2.2.2.1, h.2.2.2.2⟩
+    · exact wc_PA env m _ _ h
 
 theorem pa_finish (env : Env) (acts : List Act) (m : HMap) (s : St) (h : PA m s) :
     PC (snapAt (hdrAdds m acts)) (statusOf acts) (finish env s acts) := by
